@@ -13,8 +13,10 @@ S = 16384
 def rq(v):
     """reciprocal in fixed point: round(S / v); 0 if not representable"""
     v = float(v)
-    if v == float("inf"):
-        return 0                 # 1 / (x A^+ x^T) with x in the null space of an unregularised covariance: positive, beyond every bound
+    if v == float("inf") or abs(v) > 1e12:
+        # 1 / (x A^+ x^T) with x in the null space of an unregularised, rank-deficient covariance: the quadratic form is zero
+        # up to rounding (of either sign), the rigidity infinite - beyond every bound, its computed sign carries no information
+        return 0
     if not np.isfinite(v) or v <= 0:
         return -1
     r = S / v
